@@ -1,6 +1,8 @@
 """C11 - state exclusion values are certified optima and decide antidistinguishability."""
 from __future__ import annotations
 
+import itertools
+
 import numpy as np
 
 from .. import certs, gen, ref
@@ -149,10 +151,37 @@ def _anti_sets(rng, r):
     return [np.kron(x, y) for x in (a, b) for y in (a, b)], "pbr-below-threshold", False
 
 
+def _pbr_constructor(ctx, r, rng):
+    """The library's constructor of the PBR states (the anchor sets above are built by the harness itself): 2^n product states psi_{b1} x .. x psi_{bn}
+    in lexicographic order of the bit strings, psi_0/1 = cos(theta/2)|0> +/- sin(theta/2)|1>; and antidistinguishable exactly from the known angle on."""
+    from toqito.state_props import is_antidistinguishable
+    from toqito.states import pusey_barrett_rudolph
+
+    n = 1 + r % 3
+    theta = float(rng.uniform(0.1, 1.5)) if r % 2 else [np.pi / 4, np.pi / 2, 2 * np.arctan(2 ** 0.5 - 1)][r % 3]
+    states = ctx.call(pusey_barrett_rudolph, n, theta)
+    if states is FAILED:
+        return
+    c, s_ = np.cos(theta / 2), np.sin(theta / 2)
+    psi = [np.array([c, s_]), np.array([c, -s_])]
+    want = [ref.kron_all([psi[b_].reshape(-1, 1) for b_ in bits]).reshape(-1) for bits in itertools.product([0, 1], repeat=n)]
+    ok = len(states) == len(want) and all(np.asarray(g_).reshape(-1).shape == w_.shape and np.allclose(np.asarray(g_).reshape(-1), w_, atol=1e-12) for g_, w_ in zip(states, want))
+    ctx.check("O3:antidistinguishable=>0", bool(ok), sig=("pbr-constructor", n, r % 2), nt=n > 1, mech="pusey_barrett_rudolph:states-differ-from-definition", detail={"n": n, "theta": theta})
+    if n == 2 and ok is not None:
+        thr = 2 * np.arctan(2 ** 0.5 - 1)
+        if abs(theta - thr) > 0.05:
+            ctx.evals["solver-call"] += 1
+            ans = ctx.call(is_antidistinguishable, [np.asarray(g_).copy() for g_ in states], solver=True)
+            if ans is not FAILED:
+                ctx.check("O3:antidistinguishable=>0" if theta > thr else "O3:positive=>not-antidistinguishable", bool(ans) == (theta > thr), sig=("pbr-constructor-verdict", theta > thr), nt=True,
+                          mech="is_antidistinguishable:wrong-verdict[library-pbr-states]", detail={"theta": theta, "threshold": thr, "answer": bool(ans)})
+
+
 def _run_anti(ctx, spec, rng):
     from toqito.state_opt import state_exclusion
     from toqito.state_props import common_quantum_overlap, is_antidistinguishable
 
+    _pbr_constructor(ctx, spec[1], rng)
     r = spec[1]
     sts, name, expected = _anti_sets(rng, r)
     d = len(sts[0])
